@@ -1,6 +1,6 @@
 (* Props/C14.v — the theorems that decide property C14 (caches never change a
    verdict or an answer).  Statements only. *)
-From CKB Require Import Tx.SysCache Tx.SysCacheProofs Tx.Cache Tx.CacheProofs Tx.CacheDaoProofs Tx.FrozenCache Tx.FrozenCacheProofs.
+From CKB Require Import Tx.SysCache Tx.SysCacheProofs Tx.Cache Tx.CacheProofs Tx.CacheDaoProofs Tx.CacheMaturity Tx.CacheMaturityProofs Tx.FrozenCache Tx.FrozenCacheProofs.
 
 (* Verdicts, fees, cycles.  [content] (capacity, scripts -> cycles, fee) is a
    function of what the witness hash commits to; [time_relative] stands for
@@ -184,6 +184,106 @@ Theorem c14_example_dao_history :
     OBlock (Some [mkC 537 2000; mkC 1074 3000]) ] /\
   d_ref 10000 ex_dao_history = d_run 10000 [] ex_dao_history.
 Proof. exact ex_dao_history_outputs. Qed.
+
+(* ---- cellbase maturity and since, taken apart (Tx/CacheMaturity.v) ----------- *)
+(* TimeRelativeTransactionVerifier = MaturityVerifier (first over the resolved
+   inputs, then over the resolved cell deps, members of dep groups included),
+   then SinceVerifier.  [tr_mat] is their conjunction; the theorems above
+   instantiated for it: for every history (pool submissions, block verifications
+   at ANY positions, arbitrary evictions, cold or warm sound cache) the verdicts,
+   fees and cycles are those of a node without cache. *)
+Theorem c14_maturity_history_transparent :
+  forall (tx ctx : Type) (wtx_hash : tx -> N) (content : tx -> option completed)
+         (since_ok maturity_inputs maturity_deps : ctx -> tx -> bool) (maxc : N),
+  (forall t1 t2, wtx_hash t1 = wtx_hash t2 -> content t1 = content t2) ->
+  forall ops c,
+    vcache_ok tx wtx_hash content maxc c -> Forall (vop_ok tx ctx maxc) ops ->
+    vrun tx ctx wtx_hash content (tr_mat tx ctx since_ok maturity_inputs maturity_deps) maxc c ops =
+    vrun_ref tx ctx wtx_hash content (tr_mat tx ctx since_ok maturity_inputs maturity_deps) maxc ops.
+Proof. exact mat_history_transparent. Qed.
+
+(* Whatever the cache holds (sound or not; hit or miss): an immature cellbase
+   output among the inputs OR among the cell deps, or an unmet since, rejects. *)
+Theorem c14_maturity_each_check_always_rerun :
+  forall (tx ctx : Type) (wtx_hash : tx -> N) (content : tx -> option completed)
+         (since_ok maturity_inputs maturity_deps : ctx -> tx -> bool) c x lim skip t,
+    maturity_inputs x t = false \/ maturity_deps x t = false \/ since_ok x t = false ->
+    verify_tx tx ctx wtx_hash content (tr_mat tx ctx since_ok maturity_inputs maturity_deps) c x lim skip t = None /\
+    verify_full tx ctx content (tr_mat tx ctx since_ok maturity_inputs maturity_deps) x lim skip t = None.
+Proof. exact mat_each_check_always_rerun. Qed.
+
+Theorem c14_block_with_immature_dep_rejected :
+  forall (tx ctx : Type) (wtx_hash : tx -> N) (content : tx -> option completed)
+         (since_ok maturity_inputs maturity_deps : ctx -> tx -> bool) (maxc : N) c x skip txs t,
+    In t txs -> maturity_deps x t = false ->
+    fst (verify_block tx ctx wtx_hash content (tr_mat tx ctx since_ok maturity_inputs maturity_deps) maxc c x skip txs) = None.
+Proof. exact mat_block_with_immature_dep_rejected. Qed.
+
+(* The two-branch scenario itself: verified in a block where every cellbase
+   output the transaction uses is mature (accepted, entry cached), then committed
+   where one among its cell deps is immature: rejected with that cache exactly
+   as with none. *)
+Theorem c14_mature_then_immature_dep :
+  forall (tx ctx : Type) (wtx_hash : tx -> N) (content : tx -> option completed)
+         (since_ok maturity_inputs maturity_deps : ctx -> tx -> bool) (maxc : N) x1 x2 t e,
+    tr_mat tx ctx since_ok maturity_inputs maturity_deps x1 t = true -> maturity_deps x2 t = false ->
+    content t = Some e -> N.le (c_cycles e) maxc ->
+    let tr := tr_mat tx ctx since_ok maturity_inputs maturity_deps in
+    let c1 := snd (verify_block tx ctx wtx_hash content tr maxc [] x1 false [t]) in
+    fst (verify_block tx ctx wtx_hash content tr maxc [] x1 false [t]) = Some [e] /\
+    lookup c1 (wtx_hash t) = Some e /\
+    fst (verify_block tx ctx wtx_hash content tr maxc c1 x2 false [t]) = None /\
+    fst (verify_block tx ctx wtx_hash content tr maxc [] x2 false [t]) = None.
+Proof. exact mat_mature_then_immature_dep. Qed.
+
+(* A hit path that evaluates the position-dependent checks only for the
+   transactions a syntactic test selects ([grun]: BlockTxsVerifier with that hit
+   arm) is the cache model — hence transparent — when the test is complete:
+   what it does not select passes at every position. *)
+Theorem c14_gated_hit_path_transparent_if_complete :
+  forall (tx ctx : Type) (wtx_hash : tx -> N) (content : tx -> option completed)
+         (since_ok maturity_inputs maturity_deps : ctx -> tx -> bool) (maxc : N) (has_constraint : tx -> bool),
+  (forall t1 t2, wtx_hash t1 = wtx_hash t2 -> content t1 = content t2) ->
+  constraint_complete tx ctx since_ok maturity_inputs maturity_deps has_constraint ->
+  forall ops c,
+    vcache_ok tx wtx_hash content maxc c -> Forall (vop_ok tx ctx maxc) ops ->
+    grun tx ctx wtx_hash content since_ok maturity_inputs maturity_deps maxc has_constraint c ops =
+    vrun_ref tx ctx wtx_hash content (tr_mat tx ctx since_ok maturity_inputs maturity_deps) maxc ops.
+Proof. exact gated_complete_transparent. Qed.
+
+(* Positions read as commit heights (cellbase output of block c > 0 mature at
+   height x iff c + k <= x): the test "a since on an input, a cellbase output
+   among the inputs or among the cell deps" is complete ... *)
+Theorem c14_gated_all_complete : forall k,
+  constraint_complete htx N h_since_ok (h_mat_in k) (h_mat_dep k) h_constraint_all.
+Proof. exact h_constraint_all_complete. Qed.
+
+(* ... the test that forgets the cell deps is not.  Refuted with a witness: T has
+   no since and an ordinary input and lists the cellbase output of block 1 as a
+   cell dep, maturity 3 blocks; branch A commits T at height 5 (mature: accepted,
+   cached), branch B at height 2 (immature): answered from the cache by the gated
+   hit path, rejected without the entry and by the real hit path. *)
+Theorem c14_gated_inputs_only_refuted :
+  h_constraint_inputs hT = false /\
+  exists ops,
+    h_grun h_constraint_inputs 3 10000 [] ops = [OBlock (Some [mkC 537 1000]); OBlock (Some [mkC 537 1000])] /\
+    h_ref 3 10000 ops = [OBlock (Some [mkC 537 1000]); OBlock None] /\
+    h_run 3 10000 [] ops = h_ref 3 10000 ops /\
+    h_grun h_constraint_inputs 3 10000 [] ops <> h_ref 3 10000 ops.
+Proof. exact gated_inputs_only_refuted. Qed.
+
+(* non-vacuity: cellbase output as dep / as input / both, around the boundary *)
+Theorem c14_example_maturity_history_ok : Forall (vop_ok htx N 10000) ex_mat_history.
+Proof. exact ex_mat_history_ok. Qed.
+
+Theorem c14_example_maturity_history :
+  h_run 3 10000 [] ex_mat_history =
+  [ OBlock (Some [mkC 537 1000]); OBlock None; OBlock (Some [mkC 537 1000; mkC 537 1000]);
+    OBlock None; OBlock (Some [mkC 537 1000]); OBlock None;
+    ONone; OBlock None; OBlock None; OBlock (Some [mkC 537 1000; mkC 537 1000; mkC 537 1000]) ] /\
+  h_ref 3 10000 ex_mat_history = h_run 3 10000 [] ex_mat_history /\
+  h_grun h_constraint_all 3 10000 [] ex_mat_history = h_run 3 10000 [] ex_mat_history.
+Proof. exact ex_mat_history_outputs. Qed.
 
 (* Store read caches: after any history of block / cell writes, deletions of
    unverified blocks, reads and arbitrary evictions in which every read is on
@@ -405,3 +505,12 @@ Redirect "out/C14.c14_frozen_cache_cold_ok" Print Assumptions c14_frozen_cache_c
 Redirect "out/C14.c14_freeze_changes_no_answer" Print Assumptions c14_freeze_changes_no_answer.
 Redirect "out/C14.c14_example_frozen_history" Print Assumptions c14_example_frozen_history.
 Redirect "out/C14.c14_late_fallback_refuted" Print Assumptions c14_late_fallback_refuted.
+Redirect "out/C14.c14_maturity_history_transparent" Print Assumptions c14_maturity_history_transparent.
+Redirect "out/C14.c14_maturity_each_check_always_rerun" Print Assumptions c14_maturity_each_check_always_rerun.
+Redirect "out/C14.c14_block_with_immature_dep_rejected" Print Assumptions c14_block_with_immature_dep_rejected.
+Redirect "out/C14.c14_mature_then_immature_dep" Print Assumptions c14_mature_then_immature_dep.
+Redirect "out/C14.c14_gated_hit_path_transparent_if_complete" Print Assumptions c14_gated_hit_path_transparent_if_complete.
+Redirect "out/C14.c14_gated_all_complete" Print Assumptions c14_gated_all_complete.
+Redirect "out/C14.c14_gated_inputs_only_refuted" Print Assumptions c14_gated_inputs_only_refuted.
+Redirect "out/C14.c14_example_maturity_history_ok" Print Assumptions c14_example_maturity_history_ok.
+Redirect "out/C14.c14_example_maturity_history" Print Assumptions c14_example_maturity_history.
